@@ -199,6 +199,8 @@ def one(emit, cid, solver, df, pen, sym, rng, sample):
         mapw = lambda w: w * c  # noqa
     else:   # column_scale
         cs = 10 ** rng.uniform(-1.5, 1.5, size=p)
+        if rng.random() < 0.5:
+            cs[int(rng.integers(0, p))] = 10.0 ** float(rng.choice([-6.0, -4.0, 4.0]))     # one feature in a very different unit
         P1 = Prob(np.asfortranarray(X * cs), y, alpha, wts * cs, groups, gw)
         mapw = lambda w: np.r_[w[:p] / cs, w[p:]]  # noqa
     cell = "%s|%s|%s|%s|%s" % (solver, df, pen, sym, storage)
@@ -231,6 +233,13 @@ def one(emit, cid, solver, df, pen, sym, rng, sample):
     if s1 <= tol and solver != "FISTA" and not R.leq(c1, tol * (1 + 1e-6) + gs, rel=0.0):
         viols.append(dict(common, mechanism="transformed-problem-solution-fails-certificate", cert=c1, tol=tol,
                           detail="stop=%.3g <= tol but reference violation on the transformed problem = %.3g" % (s1, c1)))
+    for which, st_ in (("original", s0), ("transformed", s1)):
+        if not st_ <= tol and solver != "FISTA":
+            # bounded progress: both are small problems with budgets far above what they need; a symmetric image
+            # that cannot be solved while the original can (or vice versa) is not "the same problem"
+            viols.append(dict(common, mechanism="does-not-converge-within-budget", which=which, stop=float(st_),
+                              detail="%s problem: stop_crit=%.3g > tol=%g after the generous budget (other side: %.3g)" % (
+                                  which, st_, tol, s1 if which == "original" else s0)))
     if conv:
         F1, FT = prob1.objective(w1), prob1.objective(Tw)
         if prob1.pen.convex:
